@@ -424,6 +424,11 @@ const JS_LINES: &[&str] = &[
 fn gen_src(rng: &mut Rng) -> String {
   let n = 1 + rng.below(5);
   let mut s: String = (0..n).map(|_| *rng.pick(JS_LINES)).collect();
+  // a file saved with a byte order mark: the mark is text (white space for the grammar), every
+  // front end counts its three bytes / one character
+  if rng.chance(1, 9) {
+    s.insert(0, '\u{feff}');
+  }
   if rng.chance(1, 4) {
     while s.ends_with('\n') || s.ends_with('\r') {
       s.pop();
